@@ -1,4 +1,7 @@
 pub mod c01;
+pub mod c03;
+pub mod c06;
+pub mod c08;
 pub mod c09;
 
 use crate::Prop;
@@ -6,6 +9,9 @@ use crate::Prop;
 pub fn lookup(id: &str) -> Option<Box<dyn Prop>> {
     Some(match id {
         "C01" => Box::new(c01::C01),
+        "C03" => Box::new(c03::C03),
+        "C06" => Box::new(c06::C06),
+        "C08" => Box::new(c08::C08),
         "C09" => Box::new(c09::C09),
         _ => return None,
     })
